@@ -89,47 +89,9 @@ def takes_config(an, fn) -> bool:
     return False
 
 
-def check(ctx):
+def check_fresh_defaults(ctx):
     an, model = ctx.an, ctx.model
-    state = an.summary(STATE)
-    fstate = an.summary(FIELDSTATE)
     Base = model.cls("BaseField")
-    Schema = model.cls("Schema")
-    Config = model.cls("Config")
-
-    # ---------------------------------------------------------------- C13.1
-    nmeth = 0
-    for fn in an.fns():
-        if fn.cls is None or not fn.cls.is_subclass_of(Base):
-            continue
-        if is_builder(an, fn):
-            continue
-        nmeth += 1
-        bad = []
-        for n in an.cfg(fn).nodes:
-            for ev in list(state.node_events(fn, n)) + list(fstate.node_events(fn, n)):
-                if ev[0] in ("W_ATTR", "W_FIELDS", "W_ATTR_MUT") and ev[1] is not None and ev[1][0] == "self":
-                    bad.append((n, ev))
-        if not bad:
-            ctx.ob("field.stateless", fn, "%s writes no state of its field" % fn.qualname, True,
-                   "no store into self (directly or through callees)", nontrivial=takes_config(an, fn))
-        seen = set()
-        for n, ev in bad:
-            if (n.id, ev[2]) in seen:
-                continue
-            seen.add((n.id, ev[2]))
-            ctx.ob("field.stateless", fn, n.ast if n.ast is not None else n.stmt, False,
-                   "%s on %s.%s in a run-time method: the field object is shared by every configuration of the schema, so one "
-                   "configuration's operation changes what another observes" % (ev[0], ap_str(ev[1]), ev[2]), node=n)
-    ctx.need(nmeth >= 60, "fewer than 60 run-time field methods analysed (%d)" % nmeth)
-    # class-level mutable state of field classes mutated at run time
-    for fn in an.fns():
-        for n in an.cfg(fn).nodes:
-            for ev in fstate.direct(fn, n):
-                ap = ev[1]
-                if ap is not None and ap[0] == "global" and ap[1] and ap[1][0] in model.classes and model.classes[ap[1][0]].is_subclass_of(Base):
-                    ctx.ob("field.class-state", fn, n.ast, False, "class-level state of %s is mutated at run time" % ap[1][0], node=n)
-
     # ---------------------------------------------------------------- C13.2
     sdv = model.method("Config", "_set_default_value")
     nsites = 0
@@ -192,6 +154,51 @@ def check(ctx):
                                                                                  "list" if "List" in fn.cls.name else "dict"))
             ctx.ob("default.fresh", fn, n.ast, ok, why, node=n)
     ctx.need(nsites >= 5, "fewer than 5 default stores found")
+
+
+
+def check(ctx):
+    an, model = ctx.an, ctx.model
+    state = an.summary(STATE)
+    fstate = an.summary(FIELDSTATE)
+    Base = model.cls("BaseField")
+    Schema = model.cls("Schema")
+    Config = model.cls("Config")
+
+    # ---------------------------------------------------------------- C13.1
+    nmeth = 0
+    for fn in an.fns():
+        if fn.cls is None or not fn.cls.is_subclass_of(Base):
+            continue
+        if is_builder(an, fn):
+            continue
+        nmeth += 1
+        bad = []
+        for n in an.cfg(fn).nodes:
+            for ev in list(state.node_events(fn, n)) + list(fstate.node_events(fn, n)):
+                if ev[0] in ("W_ATTR", "W_FIELDS", "W_ATTR_MUT") and ev[1] is not None and ev[1][0] == "self":
+                    bad.append((n, ev))
+        if not bad:
+            ctx.ob("field.stateless", fn, "%s writes no state of its field" % fn.qualname, True,
+                   "no store into self (directly or through callees)", nontrivial=takes_config(an, fn))
+        seen = set()
+        for n, ev in bad:
+            if (n.id, ev[2]) in seen:
+                continue
+            seen.add((n.id, ev[2]))
+            ctx.ob("field.stateless", fn, n.ast if n.ast is not None else n.stmt, False,
+                   "%s on %s.%s in a run-time method: the field object is shared by every configuration of the schema, so one "
+                   "configuration's operation changes what another observes" % (ev[0], ap_str(ev[1]), ev[2]), node=n)
+    ctx.need(nmeth >= 60, "fewer than 60 run-time field methods analysed (%d)" % nmeth)
+    # class-level mutable state of field classes mutated at run time
+    for fn in an.fns():
+        for n in an.cfg(fn).nodes:
+            for ev in fstate.direct(fn, n):
+                ap = ev[1]
+                if ap is not None and ap[0] == "global" and ap[1] and ap[1][0] in model.classes and model.classes[ap[1][0]].is_subclass_of(Base):
+                    ctx.ob("field.class-state", fn, n.ast, False, "class-level state of %s is mutated at run time" % ap[1][0], node=n)
+
+    check_fresh_defaults(ctx)
 
     # ---------------------------------------------------------------- C13.3
     nmut = 0
